@@ -35,14 +35,14 @@ type pluginCall struct {
 }
 
 type stubPlugin struct {
-	idx     int
-	name    string
-	addr    string
-	ops     map[string]bool
-	outcome map[string]int
+	idx         int
+	name        string
+	addr        string
+	ops         map[string]bool
+	outcome     map[string]int
 	unreachable bool
-	mu      sync.Mutex
-	calls   []pluginCall
+	mu          sync.Mutex
+	calls       []pluginCall
 }
 
 func (p *stubPlugin) callsFor(op string) []pluginCall {
